@@ -353,6 +353,13 @@ func parsedMode() {
 			}
 		}
 	}
+	// (fourth hunt) spellings the reference parser accepts and reads as stated here: the `file` keyword after `owner`, a
+	// repeated `set=`, a peer list without a blank after its comma
+	lines = append(lines, "owner file /a r,", "file /a w,", "signal send set=hup set=term peer=x,",
+		"dbus send bus=session peer=(name=a.b,label=c),", "dbus send bus=session peer=(name=x.b,label=d),")
+	stated = append(stated, &aa.File{Owner: true, Path: "/a", Access: []string{"r"}}, &aa.File{Path: "/a", Access: []string{"w"}},
+		&aa.Signal{Access: []string{"send"}, Set: []string{"hup", "term"}, Peer: "x"},
+		&aa.Dbus{Access: []string{"send"}, Bus: "session", PeerName: "a.b", PeerLabel: "c"}, &aa.Dbus{Access: []string{"send"}, Bus: "session", PeerName: "x.b", PeerLabel: "d"})
 	n := 0
 	one := func(seq []int) {
 		text := ""
@@ -386,7 +393,23 @@ func parsedMode() {
 		}
 		want := denote(ref)
 		if parsed := denote(l); !eq(parsed, want) {
-			report("parsed-list-misread", fmt.Sprintf("the parser reads the list as %v, it states %v", parsed, want), in)
+			// name the line that is misread on its own (the first one), so that one spelling does not hide another
+			culprit := ""
+			for _, i := range seq {
+				func() {
+					defer func() { _ = recover() }()
+					if pr, _, err := aa.ParseRules("  " + lines[i] + "\n\n"); err == nil && culprit == "" {
+						if !eq(denote(pr.Flatten()), denote(aa.Rules{universe.Clone(stated[i])})) {
+							culprit = lines[i]
+						}
+					}
+				}()
+			}
+			sig := "parsed-list-misread"
+			if culprit != "" {
+				sig += " line=" + culprit
+			}
+			report(sig, fmt.Sprintf("the parser reads the list as %v, it states %v", parsed, want), in)
 			return
 		}
 		var merged aa.Rules
